@@ -22,7 +22,6 @@ def run(cmd, **kw):
 res = dict(id=sid, property=notes['property'], summary=notes.get('summary'), needs=notes.get('needs'), files=notes.get('files'))
 # make sure the change is applied exactly as in patch.diff
 run(['git', '-C', wt, 'checkout', '--', '.'])
-run(['git', '-C', wt, 'stash', 'clear'])
 p = run(['git', '-C', wt, 'apply', os.path.join(out, 'patch.diff')])
 res['patch_applies'] = (p.returncode == 0)
 t = run(['/venv/bin/python', '-m', 'pytest', '-q', '-p', 'no:cacheprovider', '--timeout=900'], cwd=wt)
